@@ -8,6 +8,7 @@ payload classes, on top of the instruction model of C01.  `sweepFrom` is defined
 (`item_len_pos`), so the sweep terminates on every input by construction.
 -/
 import AgVerif.Proof.Sweep
+import AgVerif.Proof.SweepSound
 namespace AgVerif.C02
 open AgVerif.Insn AgVerif.Sweep AgVerif.Gen
 
@@ -43,12 +44,37 @@ theorem sweep_sound_partial (odex : Bool) (size : Nat) (bs : List Nat) (idx : Na
     rw [hfx] at hs ⊢
     exact (insn_raw hb hs).1
 
-/-- The full soundness statement also asks that payload items re-encode to the bytes at their offset; that part is
-    not proved in Lean (it is checked by the correspondence and the oracle on every run). -/
+/-- The full soundness statement: payload items too re-encode to the bytes at their offset.
+    Proved: `sweep_sound` / `sweep_sound_full_proved`. -/
 def sweep_sound_full : Prop :=
   ∀ (odex : Bool) (size : Nat) (bs : List Nat) (idx : Nat), AllBytes bs →
     ∀ p ∈ (sweep odex size bs idx).1,
       p.1 + p.2.length ≤ maxIdxOf size bs ∧ p.2.raw = some ((bs.drop p.1).take p.2.length)
+
+/-- For ARBITRARY code bytes, declared size, start index and ODEX flag: every yielded item — instruction,
+    packed-switch, sparse-switch or fill-array-data payload (any size, odd array lengths with their padding byte
+    included) — starts at or after the start index, lies entirely inside the code, is what one loop iteration builds at
+    its offset, and `get_raw()` of it does not raise and returns exactly the bytes at its offset. -/
+theorem sweep_sound (odex : Bool) (size : Nat) (bs : List Nat) (idx : Nat) (hb : AllBytes bs) :
+    ∀ p ∈ (sweep odex size bs idx).1,
+      idx ≤ p.1 ∧ p.1 + p.2.length ≤ maxIdxOf size bs ∧ maxIdxOf size bs ≤ bs.length ∧
+      step odex bs (maxIdxOf size bs) p.1 = some p.2 ∧
+      p.2.raw = some ((bs.drop p.1).take p.2.length) := by
+  intro p hp
+  have h := sweepFrom_sound odex bs (maxIdxOf size bs) _ idx (Nat.le_refl _) p hp
+  have hmax : maxIdxOf size bs ≤ bs.length := by unfold maxIdxOf; split <;> omega
+  exact ⟨h.1, h.2.1, hmax, h.2.2, step_raw hb hmax h.2.2⟩
+
+theorem sweep_sound_full_proved : sweep_sound_full := by
+  intro odex size bs idx hb p hp
+  have h := sweep_sound odex size bs idx hb p hp
+  exact ⟨h.2.1, h.2.2.2.2⟩
+
+/-- Payload round trip on its own: what a payload constructor reads from a buffer that holds the whole payload,
+    `get_raw()` writes back byte for byte. -/
+theorem payload_roundtrip (buff : List Nat) (it : Item) (hb : AllBytes buff) (h : Built buff it)
+    (hlen : it.length ≤ buff.length) : it.raw = some (buff.take it.length) :=
+  built_raw hb h hlen
 
 /-- Anything else is reported as an invalid instruction: the sweep ends either normally or with InvalidInstruction
     at an offset inside the code where no object can be built. -/
@@ -75,6 +101,9 @@ example : step false [0xff, 0x01, 0x00, 0x00] 4 0 = some (.insn .f21c ⟨.f21c, 
 example : step false [0x00, 0x01, 0x64, 0x00, 0, 0, 0, 0, 0, 0, 0, 0] 12 0 = none := by rfl
 -- D4: an odd trailing byte is invalid
 example : step false [0x00, 0x00, 0x00] 3 2 = none := by rfl
+-- fill-array-data payload with 3 one-byte elements: the padding byte is part of the item and of its raw bytes
+example : step false [0x00, 0x03, 0x01, 0x00, 0x03, 0x00, 0x00, 0x00, 7, 8, 9, 0xAA] 12 0 = some (.fill 1 3 [7, 8, 9, 0xAA]) := by rfl
+example : (Item.fill 1 3 [7, 8, 9, 0xAA]).raw = some [0x00, 0x03, 0x01, 0x00, 0x03, 0x00, 0x00, 0x00, 7, 8, 9, 0xAA] := by decide
 -- a program: nop; packed-switch-payload with one target; return-void
 example : sweep false 9 [0, 0, 0x00, 0x01, 0x01, 0x00, 5, 0, 0, 0, 0xfd, 0xff, 0xff, 0xff, 0x0e, 0x00, 0x0e, 0x00] 0 =
     ([(0, .insn .f10x ⟨.f10x, 0, []⟩), (2, .packed 1 5 [-3]), (14, .insn .f10x ⟨.f10x, 0x0e, []⟩),
